@@ -246,8 +246,12 @@ def staging_buffer(prog, res):
                 arm = strip_casts(f.resolve_x(d[k]))
                 if arm is None:
                     continue
-                if const_val(arm) is not None:
-                    floor = const_val(arm)
+                av = const_val(arm)
+                if av is None and arm.get("k") == "ref" and arm.get("rk") in ("l", "sl"):
+                    sd2 = f.single_def(arm["n"])
+                    av = const_val(sd2) if sd2 is not None else None
+                if av is not None:
+                    floor = av
                 elif any(y.get("f") == "blockSizeMax" for y in f.walk_resolved(arm)):
                     blk = True
         ok = blk and floor is not None and consts and floor >= max(consts)
